@@ -6,6 +6,9 @@ PROPS = {}
 NOT_APPLICABLE = {pid: 'check not built yet (work in progress; see DESIGN.md section 11 build order)'
                   for pid in ['C%02d' % i for i in range(1, 21)]}
 
+# properties whose check is finished and registered in MANIFEST.json (others stay runnable via ./check)
+ENABLED = ['C01', 'C02', 'C03', 'C05', 'C06']
+
 TRUSTED = ('Trusted base: the simulator (txsim.core), the scripted Tor peer written from control-spec / RFC 1928 / '
            'dir-spec (its reading of the specs is the reference), Twisted Deferred/LineOnlyReceiver, CPython. '
            'Sampling, not proof: a clean batch is evidence bounded by the stated sizes.')
@@ -13,7 +16,8 @@ TRUSTED = ('Trusted base: the simulator (txsim.core), the scripted Tor peer writ
 
 def reg(pid, **kw):
     PROPS[pid] = kw
-    NOT_APPLICABLE.pop(pid, None)
+    if pid in ENABLED:
+        NOT_APPLICABLE.pop(pid, None)
 
 
 
